@@ -417,11 +417,14 @@ impl Hist {
                 format!("rewrite (same content) {:?}", p)
             }
             Op::BulkCreate(k) => {
-                let n = 700 + pick(*k, 300);
+                // few files with long names: the pending map (path + checksum per entry) still
+                // grows far beyond 64 KiB
+                let n = 300 + pick(*k, 120);
                 self.counter += 1;
                 let batch = self.counter;
+                let long = "generated-file-with-a-very-long-name-".repeat(5);
                 for i in 0..n {
-                    let p = format!("two/bulk-{}/generated-file-with-a-long-name-{:04}.txt", batch, i);
+                    let p = format!("two/bulk-{}/{}{:04}.txt", batch, long, i);
                     let c = format!("bulk {} {}\n", batch, i).into_bytes();
                     self.env.write_file(&p, &c);
                     self.work.insert(p, c);
